@@ -204,7 +204,13 @@ def run_pytest(files: list[str], cwd: str, pythonpath: list[str], timeout: int =
         if outcome == "error" and (not name or "collect" in (tc.get("classname") or "") or name == f):
             res["collect_errors"].append((f or tc.get("classname", ""), detail))
         else:
-            res["tests"][(os.path.basename(f) if f else tc.get("classname", ""), name)] = (outcome, detail)
+            # key by the module pytest collected the item from (classname), not by the file that defines the
+            # function: an object imported from the SUT is defined elsewhere but collected here
+            cn = (tc.get("classname") or "").split(".")
+            owner = next((c for c in cn if c.startswith("test_")), None)
+            key_file = owner + ".py" if owner else (os.path.basename(f) if f else "")
+            item = name if len(cn) <= 1 or cn[-1] == owner else f"{cn[-1]}::{name}"
+            res["tests"][(key_file, item)] = (outcome, detail)
     os.unlink(xml)
     return res
 
@@ -259,7 +265,7 @@ def judge_file(src: str, fname: str, result: dict) -> list[tuple[str, str]]:
         # pytest ran something the file does not define: an object of the SUT imported by name
         if not (_f == fname or fname[:-3] in _f):
             continue
-        if tname.split("[")[0] not in names and "::" not in tname:
+        if tname.split("[")[0] not in names:
             bad.append((f"sut-name-collected-as-test:{outcome}", f"{fname}: pytest collected `{tname}`, which the file only imports "
                         f"from the module under test, and reports {outcome}: {detail[:200]}"))
     if len(set(names)) != len(names):
